@@ -29,12 +29,19 @@ RKF = z3.Function('RK', z3.IntSort(), z3.IntSort(), z3.IntSort())
 KEYS = dict(L=['logM_cut', 'sigma', 'ic', 'alpha_c', 'Acent', 'Bcent'],
             E=['p_max', 'Q', 'logM_cut', 'sigma', 'gamma', 'alpha_c', 'Acent', 'Bcent', 'Ccent', 'ic'],
             Q=['logM_cut', 'sigma', 'alpha_c', 'Acent', 'Bcent', 'ic'])
+SKEYS = dict(L=['logM_cut', 'logM1', 'sigma', 'alpha', 'kappa', 'alpha_s', 's', 's_v', 's_p', 's_r', 'Acent', 'Asat', 'Bcent', 'Bsat', 'ic'],
+             E=['logM_cut', 'kappa', 'logM1', 'alpha', 'A_s', 'alpha_s', 's', 's_v', 's_p', 's_r', 'Acent', 'Asat', 'Bcent', 'Bsat', 'Ccent', 'Csat', 'ic',
+                'logM1_EE', 'alpha_EE', 'logM1_EL', 'alpha_EL'],
+             Q=['logM_cut', 'kappa', 'logM1', 'alpha', 'alpha_s', 's', 's_v', 's_p', 's_r', 'Acent', 'Asat', 'Bcent', 'Bsat', 'ic'])
+NSL = z3.Function('n_sat_LRG_modified', R, R, R, R, R, R, R, R)
+NSE = z3.Function('N_sat_elg', R, R, R, R, R, R, R)
+NSG = z3.Function('N_sat_generic', R, R, R, R, R, R)
 
 
-def tie_op(repo):
+def tie_op(repo, fname='gen_cent'):
     """the comparison the code uses between the stored random and a marker (ties are unconstrained by the property)"""
     tree = ast.parse(open(os.path.join(repo, HOD)).read())
-    fn = [n for n in tree.body if isinstance(n, ast.FunctionDef) and n.name == 'gen_cent'][0]
+    fn = [n for n in tree.body if isinstance(n, ast.FunctionDef) and n.name == fname][0]
     ops = set()
     for n in ast.walk(fn):
         if isinstance(n, ast.Compare) and ast.unparse(n.left) == 'randoms[i]' and 'marker' in ast.unparse(n.comparators[0]):
@@ -46,33 +53,74 @@ def tie_op(repo):
     return None
 
 
-def hod_dict(p):
-    return {k: SV(z3.Real(f'{p}_{k}'), 'real') for k in KEYS[p]}
+def hod_dict(p, keys=KEYS):
+    return {k: SV(z3.Real(f'{p}_{k}'), 'real') for k in keys[p]}
 
 
-def make_ghosts(want, op, dicts):
+def cent_markers(g, dicts):
+    A = lambda nm: g.arr_term(nm)       # noqa: E731
+    mass, dc, fe, sh, mu = A('mass'), A('deltac'), A('fenv'), A('shear'), A('multis')
+    S = lambda a, i: z3.Select(a, i)       # noqa: E731
+    L, E, Q = dicts
+    wL = lambda i: NCL(S(mass, i), L['logM_cut'].t + L['Acent'].t * S(dc, i) + L['Bcent'].t * S(fe, i), L['sigma'].t) * L['ic'].t * S(mu, i)      # noqa: E731
+    wE = lambda i: NCE(S(mass, i), E['p_max'].t, E['Q'].t, E['logM_cut'].t + E['Acent'].t * S(dc, i) + E['Bcent'].t * S(fe, i) + E['Ccent'].t * S(sh, i),      # noqa: E731
+                       E['sigma'].t, E['gamma'].t, z3.RealVal(1)) * E['ic'].t * S(mu, i)
+    wQ = lambda i: NCQ(S(mass, i), Q['logM_cut'].t + Q['Acent'].t * S(dc, i) + Q['Bcent'].t * S(fe, i), Q['sigma'].t) * Q['ic'].t * S(mu, i)      # noqa: E731
+    return wL, wE, wQ
+
+
+def sat_markers(g, dicts, ranks_on):
+    """slice widths of gen_sats: the satellite occupation function at the host mass with the assembly-bias shifted thresholds, times the
+    particle weight and incompleteness, times the rank decorator when ranks are enabled; the ELG width switches to the conformity
+    parameters (logM1_EL / alpha_EL with an LRG central, logM1_EE / alpha_EE with an ELG central) - without the shear term, as written"""
+    from pyvc.engine import POW
+    A = lambda nm: g.arr_term(nm)       # noqa: E731
+    mass, dc, fe, sh, w, kc = A('hmass'), A('hdeltac'), A('hfenv'), A('hshear'), A('weights'), A('keep_cent')
+    rk, rv, rp, rr = A('ranks'), A('ranksv'), A('ranksp'), A('ranksr')
+    S = lambda a, i: z3.Select(a, i)       # noqa: E731
+    L, E, Q = dicts
+    P10 = lambda x: POW(z3.RealVal(10), x)       # noqa: E731
+
+    def deco(D, i):
+        if not ranks_on:
+            return z3.RealVal(1)
+        return 1 + D['s'].t * S(rk, i) + D['s_v'].t * S(rv, i) + D['s_p'].t * S(rp, i) + D['s_r'].t * S(rr, i)
+
+    def wL(i):
+        lc = L['logM_cut'].t + L['Acent'].t * S(dc, i) + L['Bcent'].t * S(fe, i)
+        m1 = P10(L['logM1'].t + L['Asat'].t * S(dc, i) + L['Bsat'].t * S(fe, i))
+        return NSL(S(mass, i), lc, P10(lc), m1, L['sigma'].t, L['alpha'].t, L['kappa'].t) * S(w, i) * L['ic'].t * deco(L, i)
+
+    def wE(i):
+        lc = E['logM_cut'].t + E['Acent'].t * S(dc, i) + E['Bcent'].t * S(fe, i) + E['Ccent'].t * S(sh, i)
+        ab = E['Asat'].t * S(dc, i) + E['Bsat'].t * S(fe, i)
+        f = lambda m1, al: NSE(S(mass, i), P10(lc), E['kappa'].t, P10(m1), al, E['A_s'].t) * S(w, i) * E['ic'].t      # noqa: E731
+        base = z3.If(S(kc, i) == 1, f(E['logM1_EL'].t + ab, E['alpha_EL'].t),
+                     z3.If(S(kc, i) == 2, f(E['logM1_EE'].t + ab, E['alpha_EE'].t), f(E['logM1'].t + ab + E['Csat'].t * S(sh, i), E['alpha'].t)))
+        return base * deco(E, i)
+
+    def wQ(i):
+        lc = Q['logM_cut'].t + Q['Acent'].t * S(dc, i) + Q['Bcent'].t * S(fe, i)
+        m1 = P10(Q['logM1'].t + Q['Asat'].t * S(dc, i) + Q['Bsat'].t * S(fe, i))
+        return NSG(S(mass, i), P10(lc), Q['kappa'].t, m1, Q['alpha'].t) * S(w, i) * Q['ic'].t * deco(Q, i)
+    return wL, wE, wQ
+
+
+def make_ghosts(want, op, widths):
     def ghosts(g):
         eng = g.eng
-        A = lambda nm: g.arr_term(nm)       # noqa: E731
-        mass, dc, fe, sh, mu, rnd = A('mass'), A('deltac'), A('fenv'), A('shear'), A('multis'), A('randoms')
+        rnd = g.arr_term('randoms')
         S = lambda a, i: z3.Select(a, i)       # noqa: E731
-        L, E, Q = dicts
+        wL, wE, wQ = widths(g)
 
         def mkL(i):
-            if not want[0]:
-                return z3.RealVal(0)
-            return NCL(S(mass, i), L['logM_cut'].t + L['Acent'].t * S(dc, i) + L['Bcent'].t * S(fe, i), L['sigma'].t) * L['ic'].t * S(mu, i)
+            return wL(i) if want[0] else z3.RealVal(0)
 
         def mkE(i):
-            if not want[1]:
-                return mkL(i)
-            return mkL(i) + NCE(S(mass, i), E['p_max'].t, E['Q'].t, E['logM_cut'].t + E['Acent'].t * S(dc, i) + E['Bcent'].t * S(fe, i) + E['Ccent'].t * S(sh, i),
-                                E['sigma'].t, E['gamma'].t, z3.RealVal(1)) * E['ic'].t * S(mu, i)
+            return mkL(i) + wE(i) if want[1] else mkL(i)
 
         def mkQ(i):
-            if not want[2]:
-                return mkE(i)
-            return mkE(i) + NCQ(S(mass, i), Q['logM_cut'].t + Q['Acent'].t * S(dc, i) + Q['Bcent'].t * S(fe, i), Q['sigma'].t) * Q['ic'].t * S(mu, i)
+            return mkE(i) + wQ(i) if want[2] else mkE(i)
         cmp_ = (lambda a, b: a <= b) if op == '<=' else (lambda a, b: a < b)
         # the markers are opaque symbols with definitions; a disabled tracer re-uses the previous marker SYMBOL, so its slice is
         # propositionally empty (the fill pass never enters the branch of a disabled tracer)
@@ -83,6 +131,7 @@ def make_ghosts(want, op, dicts):
             g.fn('MKE', eng.ghost['MKL'])
         if not want[2]:
             g.fn('MKQ', eng.ghost['MKE'])
+
         # a disabled tracer has a zero-width slice (its marker equals the previous one, or the constant 0 < randoms for the first):
         # code c can only occur for an enabled tracer, so CODE is the nested comparison over the enabled ones
         def code(i):
@@ -158,31 +207,52 @@ def block_apply(eng, st):
 TR = [(1, 'lrg', 'L'), (2, 'elg', 'E'), (3, 'qso', 'Q')]
 
 
-def row_clauses(upto, want, rsd):
+NAMES = dict(cent=dict(fn='gen_cent', pos='pos', H='len(mass)', mass='mass', id='ids', al='alpha_c',
+                       vel=lambda ac, k: f'vel[q, {k}] + {ac} * vdev[q, {k}]'),
+             sats=dict(fn='gen_sats', pos='ppos', H='len(hmass)', mass='hmass', id='hid', al='alpha_s',
+                       vel=lambda ac, k: f'hvel[q, {k}] + {ac} * (pvel[q, {k}] - hvel[q, {k}])'))
+
+
+def row_clauses(upto, want, rsd, kind='cent'):
     """every host q < upto with CODE(q) = c occupies row RK(c, q) of tracer c's arrays with the documented values"""
+    N = NAMES[kind]
     cl = []
     for c, nm, p in TR:
         if not want[c - 1]:
             continue
-        ac = f'alpha_c_{p}'
-        vz = f'(vel[q, 2] + {ac} * vdev[q, 2])'
-        zexpr = 'pos[q, 2]'
+        ac = f'{N["al"]}_{p}'
+        vz = f'({N["vel"](ac, 2)})'
+        zexpr = f'{N["pos"]}[q, 2]'
         if rsd:
-            x = f'(pos[q, 2] + {vz} * inv_velz2kms)'
+            x = f'({N["pos"]}[q, 2] + {vz} * inv_velz2kms)'
             zexpr = f'ite({x} >= lbox / 2, {x} - lbox, ite({x} < -(lbox / 2), {x} + lbox, {x}))'
-        vals = dict(x='pos[q, 0]', y='pos[q, 1]', z=zexpr, vx=f'vel[q, 0] + {ac} * vdev[q, 0]', vy=f'vel[q, 1] + {ac} * vdev[q, 1]', vz=vz[1:-1],
-                    mass='mass[q]', id='ids[q]')
+        vals = dict(x=f'{N["pos"]}[q, 0]', y=f'{N["pos"]}[q, 1]', z=zexpr, vx=N['vel'](ac, 0), vy=N['vel'](ac, 1), vz=vz[1:-1],
+                    mass=f'{N["mass"]}[q]', id=f'{N["id"]}[q]')
         for col, v in vals.items():
             cl.append(f'forall(q, 0, {upto}, implies(CODE(q) == {c}, {nm}_{col}[RK({c}, q)] == {v}))')
     return cl
 
 
 def spec_gen_cent(want, rsd, repo=None):
+    return spec_kernel('cent', want, rsd, repo=repo)
+
+
+def spec_gen_sats(want, rsd, ranks_on, repo=None):
+    return spec_kernel('sats', want, rsd, ranks_on, repo=repo)
+
+
+def spec_kernel(kind, want, rsd, ranks_on=False, repo=None):
     repo = repo or os.environ.get('VV_REPO', '/repo')
-    op = tie_op(repo)
-    dicts = (hod_dict('L'), hod_dict('E'), hod_dict('Q'))
-    H = 'len(mass)'
-    req = ['Nthread >= 1', 'lbox > 0'] + [f'len({a}) == {H}' for a in ('pos', 'vel', 'ids', 'multis', 'randoms', 'vdev', 'deltac', 'fenv', 'shear')] + \
+    N = NAMES[kind]
+    op = tie_op(repo, N['fn'])
+    keys = KEYS if kind == 'cent' else SKEYS
+    dicts = (hod_dict('L', keys), hod_dict('E', keys), hod_dict('Q', keys))
+    H = N['H']
+    if kind == 'cent':
+        others = ('pos', 'vel', 'ids', 'multis', 'randoms', 'vdev', 'deltac', 'fenv', 'shear')
+    else:
+        others = ('ppos', 'pvel', 'hvel', 'hid', 'weights', 'randoms', 'hdeltac', 'hfenv', 'hshear', 'ranks', 'ranksv', 'ranksp', 'ranksr', 'ranksc', 'keep_cent')
+    req = ['Nthread >= 1', 'lbox > 0'] + [f'len({a}) == {H}' for a in others] + \
           [f'forall(q, 0, {H}, randoms[q] > 0)']         # a random of exactly 0 with a disabled tracer is the zero-width-slice corner (noted, not constrained)
     ts = ['0 <= tid and tid <= Nthread', f'forall(u, 0, Nthread, 0 <= hstart[u] and hstart[u] <= hstart[u + 1] and hstart[u + 1] <= {H})',
           f'hstart[0] == 0 and hstart[Nthread] == {H}']
@@ -190,11 +260,6 @@ def spec_gen_cent(want, rsd, repo=None):
     nout_zero = 'forall((tt, cc), {lo} <= tt and tt < Nthread and 0 <= cc and cc < 3, Nout[tt, cc, 0] == 0)'
     cur = ['Nout[tid, 0, 0] == RK(1, i) - RK(1, hstart[tid])', 'Nout[tid, 1, 0] == RK(2, i) - RK(2, hstart[tid])',
            'Nout[tid, 2, 0] == RK(3, i) - RK(3, hstart[tid])']
-    aliases = []
-    for c, nm, p in TR:
-        if want[c - 1]:
-            aliases.append(f'alpha_c_{p} == {"LEQ"[c - 1]}_alpha_c' if False else None)
-    lens = [f'len({nm}_{col}) == RK({c}, {H})' for c, nm, p in TR for col in ('x', 'y', 'z', 'vx', 'vy', 'vz', 'mass', 'id')]
     j_inv = ['j1 == RK(1, i)', 'j2 == RK(2, i)', 'j3 == RK(3, i)']
     fill_hints = ['keep[i] == CODE(i)', 'unfold CODE(i)', 'unfold RK(1, i)', 'unfold RK(2, i)', 'unfold RK(3, i)',
                   f'RK(1, i + 1) <= RK(1, {H}) and RK(2, i + 1) <= RK(2, {H}) and RK(3, i + 1) <= RK(3, {H})']
@@ -212,46 +277,62 @@ def spec_gen_cent(want, rsd, repo=None):
                     body_asserts={'if randoms[i] ': ['LRG_marker == MKL(i)', 'ELG_marker == MKE(i)', 'QSO_marker == MKQ(i)', 'randoms[i] > 0',
                                                      'unfold CODE(i)', 'unfold RK(1, i)', 'unfold RK(2, i)', 'unfold RK(3, i)']},
                     asserts=['keep[i - 1] == CODE(i - 1)']),
-        2: LoopSpec(invariant=ts + row_clauses('hstart[tid]', want, rsd), writes=wr2),
-        3: LoopSpec(invariant=ts + ['tid < Nthread', 'i >= 0', 'hstart[tid] <= i and i <= hstart[tid + 1]'] + j_inv + row_clauses('i', want, rsd),
+        2: LoopSpec(invariant=ts + row_clauses('hstart[tid]', want, rsd, kind), writes=wr2),
+        3: LoopSpec(invariant=ts + ['tid < Nthread', 'i >= 0', 'hstart[tid] <= i and i <= hstart[tid + 1]'] + j_inv + row_clauses('i', want, rsd, kind),
                     body_asserts={'if keep[i] == 1': fill_hints}),
     }
-    ens = [keepq.format(upto=H).replace('keep[q]', 'result[4][q]')]
+    ens = [keepq.format(upto=H).replace('keep[q]', 'result[4][q]')] if kind == 'cent' else []
     for c, nm, p in TR:
-        d = 3 if False else c - 1
         for col in ('x', 'y', 'z', 'vx', 'vy', 'vz', 'mass'):
-            ens.append(f'len(result[{d}]["{col}"]) == RK({c}, {H})')
+            ens.append(f'len(result[{c - 1}]["{col}"]) == RK({c}, {H})')
         ens.append(f'len(result[3]["{("LRG", "ELG", "QSO")[c - 1]}"]) == RK({c}, {H})')
-    for cl in row_clauses(H, want, rsd):
+    for cl in row_clauses(H, want, rsd, kind):
         # rewrite array names to the returned dictionaries
         for c, nm, p in TR:
             for col in ('x', 'y', 'z', 'vx', 'vy', 'vz', 'mass'):
                 cl = cl.replace(f'{nm}_{col}[', f'result[{c - 1}]["{col}"][')
             cl = cl.replace(f'{nm}_id[', f'result[3]["{("LRG", "ELG", "QSO")[c - 1]}"][')
         ens.append(cl)
-    ncl = CalleeSpec(['M_h', 'logM_cut', 'sigma'], ensures=['result == NCLF(M_h, logM_cut, sigma)'], result='real')
-    nce = CalleeSpec(['M_h', 'p_max', 'Q', 'logM_cut', 'sigma', 'gamma', 'Anorm'], ensures=['result == NCEF(M_h, p_max, Q, logM_cut, sigma, gamma, Anorm)'],
-                     result='real', defaults=dict(Anorm=1))
-    ncq = CalleeSpec(['M_h', 'logM_cut', 'sigma'], ensures=['result == NCQF(M_h, logM_cut, sigma)'], result='real')
-    gh = make_ghosts(want, op, dicts)
+    if kind == 'cent':
+        callees = {'n_cen_LRG': CalleeSpec(['M_h', 'logM_cut', 'sigma'], ensures=['result == NCLF(M_h, logM_cut, sigma)'], result='real'),
+                   'N_cen_ELG_v1': CalleeSpec(['M_h', 'p_max', 'Q', 'logM_cut', 'sigma', 'gamma', 'Anorm'],
+                                              ensures=['result == NCEF(M_h, p_max, Q, logM_cut, sigma, gamma, Anorm)'], result='real', defaults=dict(Anorm=1)),
+                   'N_cen_QSO': CalleeSpec(['M_h', 'logM_cut', 'sigma'], ensures=['result == NCQF(M_h, logM_cut, sigma)'], result='real')}
+        gh = make_ghosts(want, op, lambda g: cent_markers(g, dicts))
+        fns = dict(NCLF=NCL, NCEF=NCE, NCQF=NCQ)
+    else:
+        callees = {'n_sat_LRG_modified': CalleeSpec(['M_h', 'logM_cut', 'M_cut', 'M_1', 'sigma', 'alpha', 'kappa'],
+                                                    ensures=['result == NSLF(M_h, logM_cut, M_cut, M_1, sigma, alpha, kappa)'], result='real'),
+                   'N_sat_elg': CalleeSpec(['M_h', 'M_cut', 'kappa', 'M_1', 'alpha', 'A_s'], ensures=['result == NSEF(M_h, M_cut, kappa, M_1, alpha, A_s)'],
+                                           result='real', defaults=dict(A_s=1.0)),
+                   'N_sat_generic': CalleeSpec(['M_h', 'M_cut', 'kappa', 'M_1', 'alpha'], ensures=['result == NSGF(M_h, M_cut, kappa, M_1, alpha)'], result='real')}
+        gh = make_ghosts(want, op, lambda g: sat_markers(g, dicts, ranks_on))
+        fns = dict(NSLF=NSL, NSEF=NSE, NSGF=NSG)
 
     def ghosts(g):
         gh(g)
         eng = g.eng
         tr = lambda v: eng.toreal(eng.tosv(v)).t       # noqa: E731
-        g.fn('NCLF', lambda a, b, c: SV(NCL(tr(a), tr(b), tr(c)), 'real'))
-        g.fn('NCEF', lambda *a: SV(NCE(*[tr(x) for x in a]), 'real'))
-        g.fn('NCQF', lambda a, b, c: SV(NCQ(tr(a), tr(b), tr(c)), 'real'))
-    name = 'gen_cent[' + '+'.join(n for n, w in zip(('LRG', 'ELG', 'QSO'), want) if w) + f',rsd={rsd}]'
+        for nm, F in fns.items():
+            g.fn(nm, (lambda F: lambda *a: SV(F(*[tr(x) for x in a]), 'real'))(F))
+    name = N['fn'] + '[' + '+'.join(n for n, w in zip(('LRG', 'ELG', 'QSO'), want) if w) + f',rsd={rsd}' + (f',ranks={ranks_on}' if kind == 'sats' else '') + ']'
     if op is None:
         req.append('1 == 0')        # comparison form not recognised: the contract cannot be instantiated (vacuity guard reports it)
-    return FnSpec(HOD, 'gen_cent', prop='C09', name=name,
-                  args=dict(pos='real[:,3]!ro', vel='real[:,3]!ro', mass='real[:]!ro', ids='int[:]!ro', multis='real[:]!ro', randoms='real[:]!ro',
-                            vdev='real[:,3]!ro', deltac='real[:]!ro', fenv='real[:]!ro', shear='real[:]!ro', LRG_hod_dict=dicts[0], ELG_hod_dict=dicts[1],
-                            QSO_hod_dict=dicts[2], rsd=rsd, inv_velz2kms='real', lbox='real', want_LRG=want[0], want_ELG=want[1], want_QSO=want[2],
-                            Nthread='int', origin=None),
-                  ghosts=ghosts, requires=req, ensures=ens, frame=[], inline=['wrap'],
-                  callees={'n_cen_LRG': ncl, 'N_cen_ELG_v1': nce, 'N_cen_QSO': ncq},
+    common = dict(LRG_hod_dict=dicts[0], ELG_hod_dict=dicts[1], QSO_hod_dict=dicts[2], rsd=rsd, inv_velz2kms='real', lbox='real',
+                  want_LRG=want[0], want_ELG=want[1], want_QSO=want[2], Nthread='int', origin=None)
+    if kind == 'cent':
+        args = dict(pos='real[:,3]!ro', vel='real[:,3]!ro', mass='real[:]!ro', ids='int[:]!ro', multis='real[:]!ro', randoms='real[:]!ro',
+                    vdev='real[:,3]!ro', deltac='real[:]!ro', fenv='real[:]!ro', shear='real[:]!ro', **common)
+    else:
+        args = dict(ppos='real[:,3]!ro', pvel='real[:,3]!ro', hvel='real[:,3]!ro', hmass='real[:]!ro', hid='int[:]!ro', weights='real[:]!ro',
+                    randoms='real[:]!ro', hdeltac='real[:]!ro', hfenv='real[:]!ro', hshear='real[:]!ro', enable_ranks=ranks_on, ranks='real[:]!ro',
+                    ranksv='real[:]!ro', ranksp='real[:]!ro', ranksr='real[:]!ro', ranksc='real[:]!ro', Mpart='real', keep_cent='int[:]!ro', **common)
+        order = ['ppos', 'pvel', 'hvel', 'hmass', 'hid', 'weights', 'randoms', 'hdeltac', 'hfenv', 'hshear', 'enable_ranks', 'ranks', 'ranksv', 'ranksp', 'ranksr',
+                 'ranksc', 'LRG_hod_dict', 'ELG_hod_dict', 'QSO_hod_dict', 'rsd', 'inv_velz2kms', 'lbox', 'Mpart', 'want_LRG', 'want_ELG', 'want_QSO', 'Nthread',
+                 'origin', 'keep_cent']
+        args = {k: args[k] for k in order}
+    return FnSpec(HOD, N['fn'], prop='C09', name=name, args=args,
+                  ghosts=ghosts, requires=req, ensures=ens, frame=[], inline=['wrap'], callees=callees,
                   blocks=[dict(stmts=BLOCK, apply=block_apply, note='gstart = running sums over threads of the per-thread counts (cumsum), first row 0')],
                   loops=loops, hints={'N_lrg = ': [f'gstart[Nthread, 0] == RK(1, {H})', f'gstart[Nthread, 1] == RK(2, {H})', f'gstart[Nthread, 2] == RK(3, {H})']})
 
@@ -259,15 +340,24 @@ def spec_gen_cent(want, rsd, repo=None):
 SUBSETS = [(True, True, True), (True, False, False), (False, True, False), (False, False, True), (True, True, False), (True, False, True), (False, True, True)]
 
 
-def prove_gen_cent(run, prop, tier, lemmas=True):
-    """gen_cent under contract for the tracer subsets x RSD (box observer; the light-cone `origin` branch stays bounded)"""
+def prove_kernels(run, prop, tier, lemmas=True):
+    """gen_cent and gen_sats under contract for tracer subsets x RSD (x ranks); box observer (the light-cone `origin` branch stays bounded)"""
     if lemmas:
         prove_lemmas(run)
+    T3 = (True, True, True)
     if tier == 'quick':
-        cfgs = [((True, True, True), True), ((True, True, True), False), ((False, True, False), True), ((True, False, True), False)]
+        cent = {'C09': [(T3, True), (T3, False), ((False, True, False), True)], 'C10': [(T3, False), ((True, False, True), True)], 'C11': [(T3, True)]}[prop]
+        sats = {'C09': [(T3, True, True), ((False, True, False), False, False)], 'C10': [(T3, False, False)], 'C11': [(T3, True, True)]}[prop]
     else:
-        cfgs = [(w, r) for w in SUBSETS for r in (True, False)]
-    for w, r in cfgs:
+        cent = [(w, r) for w in SUBSETS for r in (True, False)]
+        sats = [(w, r, k) for w in SUBSETS for r in (True, False) for k in (True, False)]
+        if prop == 'C11':
+            cent, sats = [(T3, True), (T3, False)], [(T3, True, True), (T3, False, False)]
+    for w, r in cent:
         sp = spec_gen_cent(w, r, run.repo)
+        sp.prop = prop
+        run.prove(sp)
+    for w, r, k in sats:
+        sp = spec_gen_sats(w, r, k, run.repo)
         sp.prop = prop
         run.prove(sp)
